@@ -598,7 +598,8 @@ Proof.
     unfold ids_of, rngs_of, qids, qrngs in LT, OR. cbn [flat_map msg_ids msg_ranges app] in LT, OR.
     destruct H2 as [h1 h2 h3 h4 h5 h6 h7 h8 h9].
     assert (NR : forall j k u, In (j, k) (requests M) -> refs k = Some u -> u <> si /\ u <> ui).
-    { intros j k u Hj Hu. destruct (h5 j k u Hj Hu) as (_ & c & _). unfold qids in c. cbn in c. tauto. }
+    { intros j k u Hj Hu. destruct (h5 j k u Hj Hu) as (_ & c & _). unfold qids in c. cbn [flat_map msg_ids app In] in c.
+      split; intros ->; apply c; auto. }
     assert (KS : forall k, ~ In (si, k) (requests M)).
     { intros k Hk. apply (in_key _ _ _) in Hk. tauto. }
     assert (KU : forall k, ~ In (ui, k) (requests M)).
@@ -645,9 +646,8 @@ Proof.
 Qed.
 
 (* ---------- answers ---------- *)
-Lemma TabC_kind_unique R S B Q nx b ua i k k' : NoDup (map fst R) -> TabC R S B Q nx b ua ->
-  In (i, k) R -> In (i, k') R -> k = k'.
-Proof. intros N _ H1 H2. eapply nodup_keys_fun; eauto. exact id_eqb_ok. Qed.
+Lemma req_kind_fun (R : list (id * kind)) i k k' : NoDup (map fst R) -> In (i, k) R -> In (i, k') R -> k = k'.
+Proof. intros N H1 H2. exact (nodup_keys_fun id_eqb id_eqb_ok i k k' R N H1 H2). Qed.
 
 (* a plain entry (no reference) goes away *)
 Lemma InvC_resp_call M Q nx b ua i w : InvC M Q nx b ua -> In (i, KCall w) (requests M) ->
@@ -655,7 +655,7 @@ Lemma InvC_resp_call M Q nx b ua i w : InvC M Q nx b ua -> In (i, KCall w) (requ
 Proof.
   intros (H1 & H2 & H3) Hi. pose proof (IdsC_nd_keys _ _ _ _ _ H1) as ND.
   assert (U : forall k, In (i, k) (requests M) -> k = KCall w).
-  { intros k Hk. eapply nodup_keys_fun; eauto. exact id_eqb_ok. }
+  { intros k Hk. exact (req_kind_fun _ _ _ _ ND Hk Hi). }
   split; [|split]; auto; cbn [requests set_requests subs batches].
   - eapply IdsC_rekey; eauto.
     + apply keys_aremove_nodup; auto.
@@ -688,7 +688,7 @@ Lemma TabC_rm_ref R S B Q nx b ua i k0 u R' S' ua' :
 Proof.
   intros [h1 h2 h3 h4 h5 h6 h7 h8 h9] ND Hi Hr CR CS N1 N2 CU.
   assert (U : forall k, In (i, k) R -> k = k0).
-  { intros k Hk. eapply nodup_keys_fun; eauto. exact id_eqb_ok. }
+  { intros k Hk. exact (req_kind_fun _ _ _ _ ND Hk Hi). }
   destruct (h5 i k0 u Hi Hr) as (_ & _ & _ & UK).
   constructor; auto.
   - intros sid j Hs. apply CS in Hs as (Hs & Hn). destruct (h3 sid j Hs) as (u' & ch & um & Hu). exists u', ch, um.
@@ -714,12 +714,11 @@ Proof.
   intros ND UK. unfold release_reserved, req_lookup.
   destruct (alookup id_eqb u (requests M)) as [[[w|]| | |]|] eqn:E;
     try (apply (alookup_In id_eqb id_eqb_ok) in E; apply UK in E; discriminate).
-  - repeat split; auto; cbn [requests set_requests].
+  - split; [|split; [|split; [|split]]]; auto; cbn [requests set_requests].
     + apply keys_aremove_nodup; auto.
-    + apply (In_aremove id_eqb id_eqb_ok).
-    + apply (In_aremove id_eqb id_eqb_ok).
-    + apply (In_aremove id_eqb id_eqb_ok); tauto.
-  - repeat split; auto; try tauto.
+    + intros j k. apply (In_aremove id_eqb id_eqb_ok).
+  - split; [|split; [|split; [|split]]]; auto.
+    intros j k. split; [|tauto]. intros Hj. split; auto.
     intros ->. apply (alookup_None id_eqb id_eqb_ok) in E. apply E. eapply in_key; eauto.
 Qed.
 
@@ -728,7 +727,7 @@ Lemma not_unacked R S B Q nx b ua i k : TabC R S B Q nx b ua -> NoDup (map fst R
 Proof.
   intros T ND Hi Hk x. split; [|tauto]. intros Hx. split; auto. intros ->.
   destruct (tc_unacked _ _ _ _ _ _ _ T i Hx) as (j & Hj).
-  apply (Hk j). eapply nodup_keys_fun; eauto. exact id_eqb_ok.
+  apply (Hk j). exact (req_kind_fun _ _ _ _ ND Hi Hj).
 Qed.
 
 (* a refused / malformed / duplicate subscribe answer: the pending entry and its reserved id go *)
@@ -746,10 +745,10 @@ Proof.
   split; [|split]; rewrite ?E1, ?E2, ?E3; auto.
   - eapply IdsC_rekey; eauto. intros j Hj. left. apply in_map_iff in Hj as ([j' k] & <- & Hj). apply CR' in Hj as (Hj & _).
     eapply in_key; eauto.
-  - eapply TabC_rm_ref with (k0 := KPendSub u w um); eauto.
+  - eapply TabC_rm_ref with (k0 := KPendSub u w um); [exact H2 | exact ND | exact Hi | reflexivity | exact CR' | | | | ].
     + cbn. intros sid j. split; [|tauto]. intros Hs. split; auto. intros ->.
       destruct (tc_subs_a _ _ _ _ _ _ _ H2 _ _ Hs) as (u' & ch & um' & Hu).
-      assert (X : KSub u' ch um' = KPendSub u w um) by (eapply nodup_keys_fun; eauto; exact id_eqb_ok). discriminate.
+      assert (X : KSub u' ch um' = KPendSub u w um) by (exact (req_kind_fun _ _ _ _ ND Hu Hi)). discriminate.
     + apply (tc_nd_subs _ _ _ _ _ _ _ H2).
     + apply (tc_nd_subv _ _ _ _ _ _ _ H2).
     + eapply not_unacked; eauto. intros j; discriminate.
@@ -776,13 +775,1173 @@ Proof.
   split; [|split]; auto; cbn [requests set_requests subs batches].
   - eapply IdsC_rekey; eauto. intros j Hj. left. apply in_map_iff in Hj as ([j' k] & <- & Hj). apply CR in Hj as (Hj & _).
     eapply in_key; eauto.
-  - eapply TabC_rm_ref with (k0 := KUnsubP sub); eauto.
+  - eapply TabC_rm_ref with (k0 := KUnsubP sub); [exact H2 | exact ND | exact Hi | reflexivity | exact CR | | | | ].
     + intros sid j. split; [|tauto]. intros Hs. split; auto. intros ->.
       destruct (tc_subs_a _ _ _ _ _ _ _ H2 _ _ Hs) as (u' & ch & um' & Hu).
-      assert (X : KSub u' ch um' = KUnsubP sub) by (eapply nodup_keys_fun; eauto; exact id_eqb_ok). discriminate.
+      assert (X : KSub u' ch um' = KUnsubP sub) by (exact (req_kind_fun _ _ _ _ ND Hu Hi)). discriminate.
     + apply (tc_nd_subs _ _ _ _ _ _ _ H2).
     + apply (tc_nd_subv _ _ _ _ _ _ _ H2).
     + intros x. rewrite filter_In. split.
       * intros (Hx & Hn). split; auto. intros ->. rewrite (eqb_rfl id_eqb id_eqb_ok) in Hn. discriminate.
       * intros (Hx & Hn). split; auto. rewrite (eqb_neq id_eqb id_eqb_ok); auto.
+Qed.
+
+Lemma subs_aremove_char (S : list (subid * id)) sid rid : NoDup (map fst S) -> NoDup (map snd S) -> In (sid, rid) S ->
+  forall sid' j, In (sid', j) (aremove subid_eqb sid S) <-> In (sid', j) S /\ j <> rid.
+Proof.
+  intros N1 N2 Hs sid' j. rewrite (In_aremove subid_eqb subid_eqb_ok). split; intros (H & Hn); split; auto.
+  - intros ->. apply Hn. eapply nodup_vals_fun; eauto.
+  - intros ->. apply Hn. exact (nodup_keys_fun subid_eqb subid_eqb_ok _ _ _ _ N1 H Hs).
+Qed.
+
+Lemma subs_aremove_nd (S : list (subid * id)) sid : NoDup (map fst S) -> NoDup (map snd S) ->
+  NoDup (map fst (aremove subid_eqb sid S)) /\ NoDup (map snd (aremove subid_eqb sid S)).
+Proof.
+  intros N1 N2. split.
+  - apply keys_aremove_nodup; auto.
+  - rewrite (aremove_filter subid_eqb). apply nodup_map_filter; auto.
+Qed.
+
+(* a server close notification: the subscription and its reserved id go *)
+Lemma InvC_close M Q nx b ua sid rid u ch um : InvC M Q nx b ua ->
+  In (sid, rid) (subs M) -> In (rid, KSub u ch um) (requests M) ->
+  InvC (release_reserved u (set_subs (set_requests M (aremove id_eqb rid (requests M))) (aremove subid_eqb sid (subs M)))) Q nx b ua.
+Proof.
+  intros (H1 & H2 & H3) Hs Hi. pose proof (IdsC_nd_keys _ _ _ _ _ H1) as ND.
+  destruct (tc_res _ _ _ _ _ _ _ H2 _ _ _ Hi eq_refl) as (_ & _ & _ & UK).
+  set (M1 := set_subs (set_requests M (aremove id_eqb rid (requests M))) (aremove subid_eqb sid (subs M))).
+  destruct (release_char M1 u) as (E1 & E2 & E3 & N' & CR).
+  { cbn. apply keys_aremove_nodup; auto. }
+  { cbn. intros k Hk. apply (In_aremove id_eqb id_eqb_ok) in Hk as (Hk & _). auto. }
+  assert (CR' : forall j k, In (j, k) (requests (release_reserved u M1)) <-> In (j, k) (requests M) /\ j <> rid /\ j <> u).
+  { intros j k. rewrite CR. cbn. rewrite (In_aremove id_eqb id_eqb_ok). tauto. }
+  pose proof (tc_nd_subs _ _ _ _ _ _ _ H2) as NS1. pose proof (tc_nd_subv _ _ _ _ _ _ _ H2) as NS2.
+  destruct (subs_aremove_nd (subs M) sid NS1 NS2) as (NS3 & NS4).
+  split; [|split]; rewrite ?E1, ?E2, ?E3; auto.
+  - eapply IdsC_rekey; eauto. intros j Hj. left. apply in_map_iff in Hj as ([j' k] & <- & Hj). apply CR' in Hj as (Hj & _).
+    eapply in_key; eauto.
+  - eapply TabC_rm_ref with (k0 := KSub u ch um); [exact H2 | exact ND | exact Hi | reflexivity | exact CR' | | | | ]; cbn [M1 subs set_subs set_requests]; auto.
+    + apply subs_aremove_char; auto.
+    + eapply not_unacked; eauto. intros j; discriminate.
+Qed.
+
+(* an accepted subscribe answer *)
+Lemma InvC_resp_pend_ok M Q nx b ua i u w um sid : InvC M Q nx b ua -> In (i, KPendSub u w um) (requests M) ->
+  ~ In sid (map fst (subs M)) ->
+  InvC (set_subs (set_requests M ((i, KSub u w um) :: aremove id_eqb i (requests M))) ((sid, i) :: subs M)) Q nx b ua.
+Proof.
+  intros (H1 & H2 & H3) Hi Hsid. pose proof (IdsC_nd_keys _ _ _ _ _ H1) as ND.
+  assert (U : forall k, In (i, k) (requests M) -> k = KPendSub u w um).
+  { intros k Hk. exact (req_kind_fun _ _ _ _ ND Hk Hi). }
+  split; [|split]; auto; cbn [requests set_requests set_subs subs batches].
+  - eapply IdsC_rekey; eauto; cbn [map fst].
+    + constructor.
+      * intros Hx. apply (keys_aremove id_eqb id_eqb_ok) in Hx. tauto.
+      * apply keys_aremove_nodup; auto.
+    + intros j [<- | Hj]; left.
+      * eapply in_key; eauto.
+      * apply (keys_aremove id_eqb id_eqb_ok) in Hj. tauto.
+  - destruct H2 as [h1 h2 h3 h4 h5 h6 h7 h8 h9].
+    destruct (h5 _ _ _ Hi eq_refl) as (a0 & c0 & d0 & e0).
+    (* every new entry comes from an old entry with the same key and the same reference *)
+    assert (PRE : forall j k, In (j, k) ((i, KSub u w um) :: aremove id_eqb i (requests M)) ->
+                   exists k0, In (j, k0) (requests M) /\ refs k0 = refs k /\ (k = k0 \/ (j = i /\ k = KSub u w um))).
+    { intros j k [E | Hj]; [inv E|].
+      - exists (KPendSub u w um). auto.
+      - apply (In_aremove id_eqb id_eqb_ok) in Hj as (Hj & _). exists k. auto. }
+    constructor; auto.
+    + cbn [map fst]. constructor; auto.
+    + cbn [map snd]. constructor; auto. intros Hx. apply in_map_iff in Hx as ([sid' j] & E & Hs). cbn in E. subst j.
+      destruct (h3 _ _ Hs) as (u' & ch & um' & Hu). apply U in Hu. discriminate.
+    + intros sid' j [E | Hs]; [inv E|].
+      * exists u, w, um. left; auto.
+      * destruct (h3 _ _ Hs) as (u' & ch & um' & Hu). exists u', ch, um'. right.
+        apply (In_aremove id_eqb id_eqb_ok). split; auto. intros ->. apply U in Hu. discriminate.
+    + intros j u' ch um' [E | Hj]; [inv E|].
+      * exists sid. left; auto.
+      * apply (In_aremove id_eqb id_eqb_ok) in Hj as (Hj & _). destruct (h4 _ _ _ _ Hj) as (sid' & Hs). exists sid'. right; auto.
+    + intros j k u' Hj Hu. destruct (PRE j k Hj) as (k0 & Hk0 & Hr & _). rewrite <- Hr in Hu.
+      destruct (h5 j k0 u' Hk0 Hu) as (a & c & d & e). repeat split; auto.
+      intros k' [E | Hk]; [inv E|].
+      * apply e in Hi. discriminate.
+      * apply (In_aremove id_eqb id_eqb_ok) in Hk as (Hk & _). auto.
+    + intros i1 k1 i2 k2 u' I1 I2 R1 R2.
+      destruct (PRE _ _ I1) as (k1' & J1 & E1 & _). destruct (PRE _ _ I2) as (k2' & J2 & E2 & _).
+      rewrite <- E1 in R1. rewrite <- E2 in R2. eauto.
+    + intros j [E | Hj]; [inv E|]. apply (In_aremove id_eqb id_eqb_ok) in Hj as (Hj & Hn).
+      destruct (h7 j Hj) as (i2 & k2 & Hi2 & Hr).
+      destruct (id_eqb i2 i) eqn:E.
+      * apply id_eqb_ok in E. subst i2. apply U in Hi2. subst k2. cbn in Hr. inv Hr.
+        exists i, (KSub j w um). split; auto. left; auto.
+      * exists i2, k2. split; auto. right. apply (In_aremove id_eqb id_eqb_ok). split; auto.
+        intros ->. rewrite (eqb_rfl id_eqb id_eqb_ok) in E. discriminate.
+    + intros x j [E | Hj]; [inv E|]. apply (In_aremove id_eqb id_eqb_ok) in Hj as (Hj & _). eauto.
+    + intros x Hx. destruct (h9 x Hx) as (j & Hj). exists j. right.
+      apply (In_aremove id_eqb id_eqb_ok). split; auto. intros ->. apply U in Hj. discriminate.
+Qed.
+
+(* the send task unsubscribes: the subscription entry becomes a tombstone, the reserved id a pending unsubscribe *)
+Lemma InvC_unsub M Q nx b ua sid rid u ch um : InvC M Q nx b ua ->
+  In (sid, rid) (subs M) -> In (rid, KSub u ch um) (requests M) ->
+  InvC (set_subs (set_requests M (aset id_eqb u (KUnsubP rid) (aset id_eqb rid (KCall None) (requests M))))
+                 (aremove subid_eqb sid (subs M))) Q nx b (u :: ua).
+Proof.
+  intros (H1 & H2 & H3) Hs Hi. pose proof (IdsC_nd_keys _ _ _ _ _ H1) as ND.
+  assert (U : forall k, In (rid, k) (requests M) -> k = KSub u ch um).
+  { intros k Hk. exact (req_kind_fun _ _ _ _ ND Hk Hi). }
+  destruct (tc_res _ _ _ _ _ _ _ H2 _ _ _ Hi eq_refl) as (a0 & c0 & d0 & UK).
+  assert (D : u <> rid). { intros ->. apply UK in Hi. discriminate. }
+  set (R' := aset id_eqb u (KUnsubP rid) (aset id_eqb rid (KCall None) (requests M))).
+  assert (CR : forall j k, In (j, k) R' <->
+            (j = u /\ k = KUnsubP rid) \/ (j = rid /\ k = KCall None) \/ (In (j, k) (requests M) /\ j <> rid /\ j <> u)).
+  { intros j k. unfold R'. rewrite (In_aset id_eqb id_eqb_ok), (In_aset id_eqb id_eqb_ok). split.
+    - intros [X | ([(X1 & X2) | X] & Y)]; auto. right; right. tauto.
+    - intros [X | [(X1 & X2) | X]]; auto.
+      + right. split; auto. congruence.
+      + right. split; [right|]; tauto. }
+  assert (NR' : NoDup (map fst R')).
+  { unfold R'. apply aset_keys_nodup; [exact id_eqb_ok|]. apply aset_keys_nodup; [exact id_eqb_ok|]. auto. }
+  pose proof (tc_nd_subs _ _ _ _ _ _ _ H2) as NS1. pose proof (tc_nd_subv _ _ _ _ _ _ _ H2) as NS2.
+  destruct (subs_aremove_nd (subs M) sid NS1 NS2) as (NS3 & NS4).
+  pose proof (subs_aremove_char (subs M) sid rid NS1 NS2 Hs) as CS.
+  split; [|split]; auto; cbn [requests set_requests set_subs subs batches]; fold R'.
+  - eapply IdsC_rekey; eauto. intros j Hj. apply in_map_iff in Hj as ([j' k] & <- & Hj). cbn [fst].
+    apply CR in Hj as [(-> & _) | [(-> & _) | (Hj & _)]].
+    + right. auto.
+    + left. eapply in_key; eauto.
+    + left. eapply in_key; eauto.
+  - destruct H2 as [h1 h2 h3 h4 h5 h6 h7 h8 h9].
+    assert (RID : idlt b nx rid /\ ~ In rid (qids Q) /\ off_rngs (rngs_of (batches M) Q) rid).
+    { assert (K : In rid (ids_of (requests M) Q)) by (apply in_app_iff; left; eapply in_key; eauto).
+      repeat split.
+      - apply (ic_lt_ids _ _ _ _ _ H1); auto.
+      - eapply IdsC_key_notq; eauto. eapply in_key; eauto.
+      - apply (ic_id_rng _ _ _ _ _ H1); auto. }
+    assert (NOREF : forall j k, In (j, k) (requests M) -> refs k = Some rid -> False).
+    { intros j k Hj Hr. destruct (h5 j k rid Hj Hr) as (_ & _ & _ & e). apply e in Hi. discriminate. }
+    constructor; auto.
+    + intros sid' j Hs'. apply CS in Hs' as (Hs' & Hn). destruct (h3 _ _ Hs') as (u' & ch' & um' & Hu).
+      exists u', ch', um'. apply CR. right; right. repeat split; auto. intros ->. apply UK in Hu. discriminate.
+    + intros j u' ch' um' Hj. apply CR in Hj as [(_ & X) | [(_ & X) | (Hj & Hn1 & Hn2)]]; try discriminate.
+      destruct (h4 _ _ _ _ Hj) as (sid' & Hs'). exists sid'. apply CS. auto.
+    + intros j k u' Hj Hu. apply CR in Hj as [(-> & ->) | [(-> & ->) | (Hj & Hn1 & Hn2)]]; [|discriminate|].
+      * cbn in Hu. inv Hu. destruct RID as (r1 & r2 & r3). repeat split; auto.
+        intros k' Hk. apply CR in Hk as [(X & _) | [(_ & X) | (_ & X & _)]]; auto; congruence.
+      * destruct (h5 j k u' Hj Hu) as (a & c & d & e). repeat split; auto.
+        assert (u' <> u). { intros ->. apply Hn1. eapply h6; eauto. }
+        intros k' Hk. apply CR in Hk as [(X & _) | [(_ & X) | (X & _)]]; auto; congruence.
+    + intros i1 k1 i2 k2 u' I1 I2 R1 R2.
+      apply CR in I1 as [(-> & ->) | [(-> & ->) | (I1 & N11 & N12)]]; [|discriminate|];
+      apply CR in I2 as [(-> & ->) | [(-> & ->) | (I2 & N21 & N22)]]; try discriminate; auto.
+      * cbn in R1. inv R1. exfalso. eapply NOREF; eauto.
+      * cbn in R2. inv R2. exfalso. eapply NOREF; eauto.
+      * eauto.
+    + intros j Hj. apply CR in Hj as [(_ & X) | [(-> & _) | (Hj & Hn1 & Hn2)]]; [discriminate | |].
+      * exists u, (KUnsubP rid). split; auto. apply CR. auto.
+      * destruct (h7 j Hj) as (i2 & k2 & Hi2 & Hr). exists i2, k2. split; auto. apply CR. right; right. repeat split; auto.
+        -- intros ->. apply U in Hi2. subst k2. cbn in Hr. congruence.
+        -- intros ->. apply UK in Hi2. subst k2. discriminate.
+    + intros x j Hj. apply CR in Hj as [(-> & _) | [(_ & X) | (Hj & _)]]; [left; auto | discriminate | right; eauto].
+    + intros x [<- | Hx].
+      * exists rid. apply CR. auto.
+      * destruct (h9 x Hx) as (j & Hj). exists j. apply CR. right; right. repeat split; auto.
+        -- intros ->. apply U in Hj. discriminate.
+        -- intros ->. apply UK in Hj. discriminate.
+Qed.
+
+(* an array reply / (un)registration of a notification handler *)
+Lemma InvC_batch_rm M Q nx b ua k : InvC M Q nx b ua ->
+  InvC (set_batches M (aremove range_eqb k (batches M))) Q nx b ua.
+Proof.
+  intros (H1 & H2 & H3).
+  assert (I : forall r, In r (rngs_of (aremove range_eqb k (batches M)) Q) -> In r (rngs_of (batches M) Q)).
+  { unfold rngs_of. intros r. rewrite !in_app_iff. intros [Hr | Hr]; auto. left.
+    apply (keys_aremove range_eqb range_eqb_ok) in Hr. tauto. }
+  split; [|split]; auto; cbn [requests set_batches subs batches].
+  - eapply IdsC_shrink; [exact H1|..]; auto.
+    + apply (ic_nd_ids _ _ _ _ _ H1).
+    + pose proof (ic_nd_rng _ _ _ _ _ H1) as N. unfold rngs_of in *. apply nodup_app in N as (N1 & N2 & N3).
+      apply nodup_app. repeat split; auto.
+      * apply keys_aremove_nodup; auto.
+      * intros x Hx. apply (keys_aremove range_eqb range_eqb_ok) in Hx. apply N3. tauto.
+    + apply (ic_qok _ _ _ _ _ H1).
+  - eapply TabC_q; [| |eauto]; auto.
+Qed.
+
+Lemma InvC_nh M Q nx b ua nh : InvC M Q nx b ua -> NoDup (map fst nh) -> InvC (set_nhandlers M nh) Q nx b ua.
+Proof. intros (H1 & H2 & H3) N. split; [|split]; auto. Qed.
+
+Lemma InvC_kill nx b : InvC empty_mgr [] nx b [].
+Proof.
+  split; [|split]; [constructor | constructor |]; cbn; try constructor; intros; try contradiction; tauto.
+Qed.
+
+(* what the invariant says about a quiescent table *)
+Lemma InvC_quiescent M Q nx b ua : InvC M Q nx b ua ->
+  (forall i k, In (i, k) (requests M) -> k = KCall None) -> requests M = [] /\ subs M = [].
+Proof.
+  intros (H1 & H2 & H3) Hq.
+  assert (E : requests M = []).
+  { destruct (requests M) as [|[i k] R] eqn:E; auto. exfalso.
+    assert (Hk : k = KCall None) by (apply (Hq i); left; auto). subst k.
+    destruct (tc_none _ _ _ _ _ _ _ H2 i) as (i2 & k2 & Hi2 & Hr); [left; auto|].
+    apply Hq in Hi2. subst. discriminate. }
+  split; auto. destruct (subs M) as [|[sid j] S] eqn:E2; auto. exfalso.
+  destruct (tc_subs_a _ _ _ _ _ _ _ H2 sid j) as (u & ch & um & Hu); [left; auto|].
+  rewrite E in Hu. contradiction.
+Qed.
+
+(* ------------------------------------------------------------------------------------------- *)
+(* Part 3: the state-level invariant                                                             *)
+(* ------------------------------------------------------------------------------------------- *)
+
+Definition qmsgs (s : st) : list f2b := queue s ++ map fst (waiting s).
+
+Record Inv (s : st) : Prop := {
+  inv_core : InvC (m s) (qmsgs s) (next_id s) (id_str s) (unacked s);
+  inv_chans : NoDup (map fst (chans s));
+  inv_dead : dead s = true -> m s = empty_mgr /\ queue s = [] /\ waiting s = [];
+  inv_busy : busy s = true -> gated s = true
+}.
+
+(* ids in use: keys of requests, ids carried by queued messages, ids referred to by table entries *)
+Definition usedC (R : list (id * kind)) (Q : list f2b) (i : id) : Prop :=
+  In i (map fst R) \/ In i (qids Q) \/ exists j k, In (j, k) R /\ refs k = Some i.
+Definition used (s : st) (i : id) : Prop := usedC (requests (m s)) (qmsgs s) i.
+
+(* what a transition may add: only ids at or above the counter *)
+Record Ext (s s' : st) : Prop := {
+  ext_str : id_str s' = id_str s;
+  ext_next : next_id s <= next_id s';
+  ext_used : forall i, used s' i -> used s i \/ idge (id_str s) (next_id s) i;
+  ext_q : forall i, In i (qids (qmsgs s')) -> In i (qids (qmsgs s)) \/ idge (id_str s) (next_id s) i
+}.
+
+Lemma Ext_refl s : Ext s s.
+Proof. constructor; auto; lia. Qed.
+
+Lemma idge_mono b nx nx' i : nx <= nx' -> idge b nx' i -> idge b nx i.
+Proof. intros L (n & Hn & ->). exists n. split; auto; lia. Qed.
+
+Lemma Ext_trans s1 s2 s3 : Ext s1 s2 -> Ext s2 s3 -> Ext s1 s3.
+Proof.
+  intros [a1 a2 a3 a4] [b1 b2 b3 b4]. constructor.
+  - congruence.
+  - lia.
+  - intros i Hi. apply b3 in Hi as [Hi | Hi]; auto. right. rewrite a1 in Hi. eapply idge_mono; eauto.
+  - intros i Hi. apply b4 in Hi as [Hi | Hi]; auto. right. rewrite a1 in Hi. eapply idge_mono; eauto.
+Qed.
+
+Definition Good (s s' : st) : Prop := Inv s' /\ Ext s s'.
+
+Lemma Good_trans s1 s2 s3 : Good s1 s2 -> (Inv s2 -> Good s2 s3) -> Good s1 s3.
+Proof. intros (I2 & E12) H. destruct (H I2) as (I3 & E23). split; auto. eapply Ext_trans; eauto. Qed.
+
+Lemma Good_refl s : Inv s -> Good s s.
+Proof. intros H. split; auto. apply Ext_refl. Qed.
+
+Ltac st_simpl :=
+  cbn [m chans next_id id_str queue qcap waiting gone gated busy unsubw subkind bufcap dead dying sendfail unacked
+       upd_m upd_chans upd_next upd_queue upd_gone upd_busy upd_unsubw upd_subkind upd_dead upd_dying upd_sendfail
+       upd_unacked set_chan fst snd] in *.
+
+(* the part of the state the invariant reads is untouched *)
+Record SameC (s s' : st) : Prop := {
+  sc_m : m s' = m s; sc_next : next_id s' = next_id s; sc_str : id_str s' = id_str s;
+  sc_queue : queue s' = queue s; sc_waiting : waiting s' = waiting s; sc_unacked : unacked s' = unacked s;
+  sc_dead : dead s' = dead s; sc_gated : gated s' = gated s; sc_qcap : qcap s' = qcap s; sc_bufcap : bufcap s' = bufcap s
+}.
+
+Lemma SameC_refl s : SameC s s.
+Proof. constructor; reflexivity. Qed.
+Lemma SameC_trans s1 s2 s3 : SameC s1 s2 -> SameC s2 s3 -> SameC s1 s3.
+Proof. intros [] []. constructor; congruence. Qed.
+
+Lemma SameC_qmsgs s s' : SameC s s' -> qmsgs s' = qmsgs s.
+Proof. intros []. unfold qmsgs. congruence. Qed.
+
+Lemma Inv_same s s' : SameC s s' -> NoDup (map fst (chans s')) -> (busy s' = true -> gated s' = true) -> Inv s -> Inv s'.
+Proof.
+  intros C N B [h1 h2 h3 h4]. pose proof (SameC_qmsgs _ _ C) as Q. destruct C. constructor; auto.
+  - rewrite Q. congruence.
+  - intros D. rewrite sc_dead0 in D. apply h3 in D. rewrite sc_m0, sc_queue0, sc_waiting0. auto.
+Qed.
+
+Lemma Ext_same s s' : SameC s s' -> Ext s s'.
+Proof.
+  intros C. pose proof (SameC_qmsgs _ _ C) as Q. destruct C. constructor; unfold used; rewrite ?Q; try congruence; auto.
+  - lia.
+  - rewrite sc_m0. auto.
+Qed.
+
+Lemma Good_same s s' : SameC s s' -> NoDup (map fst (chans s')) -> (busy s' = true -> gated s' = true) -> Inv s -> Good s s'.
+Proof. intros C N B I. split; [eapply Inv_same; eauto | apply Ext_same; auto]. Qed.
+
+(* ---------- primitives that leave the core alone ---------- *)
+Lemma set_chan_keys s h c : NoDup (map fst (chans s)) -> NoDup (map fst (chans (set_chan s h c))).
+Proof. intros H. st_simpl. apply aset_keys_nodup; auto. exact Neqb_ok. Qed.
+
+Lemma set_chan_same s h c : SameC s (set_chan s h c).
+Proof. constructor; reflexivity. Qed.
+
+Lemma drop_sink_same s h : SameC s (drop_sink s h).
+Proof. unfold drop_sink. destruct (chan_of s h); [apply set_chan_same | apply SameC_refl]. Qed.
+
+Lemma drop_sink_keys s h : NoDup (map fst (chans s)) -> NoDup (map fst (chans (drop_sink s h))).
+Proof. intros H. unfold drop_sink. destruct (chan_of s h); auto. apply set_chan_keys; auto. Qed.
+
+Lemma drop_sink_flags s h : busy (drop_sink s h) = busy s /\ dying (drop_sink s h) = dying s /\ sendfail (drop_sink s h) = sendfail s.
+Proof. unfold drop_sink. destruct (chan_of s h); auto. Qed.
+
+Lemma wire_same s raw : SameC s (fst (wire s raw)).
+Proof. unfold wire. destruct (sendfail s); [|destruct (gated s)]; constructor; reflexivity. Qed.
+
+Lemma wire_chans s raw : chans (fst (wire s raw)) = chans s.
+Proof. unfold wire. destruct (sendfail s); [|destruct (gated s)]; reflexivity. Qed.
+
+Lemma wire_busy s raw : (busy s = true -> gated s = true) -> busy (fst (wire s raw)) = true -> gated (fst (wire s raw)) = true.
+Proof.
+  unfold wire. destruct (sendfail s); [|destruct (gated s) eqn:G]; st_simpl; auto.
+  intros H Hb. rewrite G. auto.
+Qed.
+
+Lemma wire_good s raw : Inv s -> Good s (fst (wire s raw)).
+Proof.
+  intros I. apply Good_same; auto.
+  - apply wire_same.
+  - rewrite wire_chans. apply (inv_chans _ I).
+  - apply wire_busy. apply (inv_busy _ I).
+Qed.
+
+(* ---------- queueing ---------- *)
+Lemma mark_admitted_fst w u : map (fun x => fst (fst x)) (mark_admitted w u) = map (fun x => fst (fst x)) u.
+Proof.
+  unfold mark_admitted. rewrite map_map. apply map_ext. intros [[h c] b]. destruct (N.eqb h w); reflexivity.
+Qed.
+
+Lemma enqueue_tagged_perm s msg tag : Permutation (msg :: qmsgs s) (qmsgs (enqueue_tagged s msg tag)).
+Proof.
+  unfold enqueue_tagged, qmsgs.
+  destruct (Nat.ltb (length (queue s)) (qcap s) && match waiting s with [] => true | _ => false end).
+  - assert (P : Permutation (msg :: queue s ++ map fst (waiting s)) ((queue s ++ [msg]) ++ map fst (waiting s))).
+    { rewrite <- app_assoc. apply Permutation_middle. }
+    destruct tag; st_simpl; exact P.
+  - st_simpl. rewrite map_app. cbn [map fst]. rewrite app_assoc. apply Permutation_cons_append.
+Qed.
+
+(* everything but queue, waiting, unsubw *)
+Record SameQ (s s' : st) : Prop := {
+  sq_m : m s' = m s; sq_next : next_id s' = next_id s; sq_str : id_str s' = id_str s;
+  sq_unacked : unacked s' = unacked s; sq_dead : dead s' = dead s; sq_gated : gated s' = gated s;
+  sq_qcap : qcap s' = qcap s; sq_chans : chans s' = chans s; sq_busy : busy s' = busy s;
+  sq_dying : dying s' = dying s; sq_sendfail : sendfail s' = sendfail s; sq_gone : gone s' = gone s;
+  sq_subkind : subkind s' = subkind s; sq_bufcap : bufcap s' = bufcap s
+}.
+
+Lemma SameQ_refl s : SameQ s s.
+Proof. constructor; reflexivity. Qed.
+Lemma SameQ_trans s1 s2 s3 : SameQ s1 s2 -> SameQ s2 s3 -> SameQ s1 s3.
+Proof. intros [] []. constructor; congruence. Qed.
+
+Lemma enqueue_tagged_sameq s msg tag : SameQ s (enqueue_tagged s msg tag).
+Proof.
+  unfold enqueue_tagged.
+  destruct (Nat.ltb (length (queue s)) (qcap s) && match waiting s with [] => true | _ => false end);
+    [destruct tag|]; constructor; reflexivity.
+Qed.
+
+Lemma try_enqueue_sameq s msg : SameQ s (try_enqueue s msg).
+Proof. unfold try_enqueue. destruct (Nat.ltb (length (queue s)) (qcap s)); constructor; reflexivity. Qed.
+
+Lemma admit_waiting_sameq f : forall s, SameQ s (admit_waiting f s).
+Proof.
+  induction f as [|f IH]; intros s; cbn [admit_waiting]; [apply SameQ_refl|].
+  destruct (waiting s) as [|[msg tag] w]; [apply SameQ_refl|].
+  destruct (Nat.ltb (length (queue s)) (qcap s)); [|apply SameQ_refl].
+  eapply SameQ_trans; [|apply IH]. destruct tag; constructor; reflexivity.
+Qed.
+
+Lemma admit_waiting_qmsgs f : forall s, qmsgs (admit_waiting f s) = qmsgs s.
+Proof.
+  induction f as [|f IH]; intros s; cbn [admit_waiting]; auto.
+  destruct (waiting s) as [|[msg tag] w] eqn:W; auto.
+  destruct (Nat.ltb (length (queue s)) (qcap s)); auto.
+  rewrite IH. unfold qmsgs. rewrite W. destruct tag; st_simpl; rewrite <- app_assoc; reflexivity.
+Qed.
+
+(* the queued multiset changes, nothing else the invariant reads does; dead states do not queue *)
+Lemma Inv_requeue s s' : SameQ s s' -> Inv s -> dead s = false ->
+  InvC (m s) (qmsgs s') (next_id s) (id_str s) (unacked s) -> Inv s'.
+Proof.
+  intros [] [h1 h2 h3 h4] D C. constructor.
+  - congruence.
+  - congruence.
+  - intros X. congruence.
+  - intros X. rewrite sq_gated0. apply h4. congruence.
+Qed.
+
+Lemma Ext_requeue s s' : SameQ s s' -> (forall i, In i (qids (qmsgs s')) -> In i (qids (qmsgs s))) -> Ext s s'.
+Proof.
+  intros [] I. constructor; auto; try lia.
+  intros i. unfold used, usedC. rewrite sq_m0. intros [H | [H | H]]; auto.
+Qed.
+
+Lemma admit_waiting_good f s : Inv s -> Good s (admit_waiting f s).
+Proof.
+  intros I. pose proof (admit_waiting_sameq f s) as Q. pose proof (admit_waiting_qmsgs f s) as E. split.
+  - destruct Q, I as [h1 h2 h3 h4]. constructor; try congruence; [|rewrite sq_busy0, sq_gated0; auto].
+    intros D. rewrite sq_dead0 in D. destruct (h3 D) as (a & b & c).
+    assert (X : admit_waiting f s = s).
+    { destruct f; cbn [admit_waiting]; auto. rewrite c. auto. }
+    rewrite X. auto.
+  - apply Ext_requeue; auto. rewrite E. auto.
+Qed.
+
+Lemma enqueue_plain_good s msg tag : Inv s -> dead s = false -> msg_ids msg = [] -> msg_ranges msg = [] -> msg_ok msg ->
+  Good s (enqueue_tagged s msg tag).
+Proof.
+  intros I D E1 E2 K. pose proof (enqueue_tagged_sameq s msg tag) as Q. pose proof (enqueue_tagged_perm s msg tag) as P. split.
+  - eapply Inv_requeue; eauto. eapply InvC_perm; [exact P|]. apply InvC_enq_plain; auto. apply (inv_core _ I).
+  - apply Ext_requeue; auto. intros i Hi. eapply Permutation_in in Hi; [|apply qids_perm; symmetry; exact P].
+    unfold qids in Hi. cbn [flat_map] in Hi. rewrite E1 in Hi. exact Hi.
+Qed.
+
+Lemma try_enqueue_plain_good s msg : Inv s -> dead s = false -> msg_ids msg = [] -> msg_ranges msg = [] -> msg_ok msg ->
+  Good s (try_enqueue s msg).
+Proof.
+  intros I D E1 E2 K. pose proof (try_enqueue_sameq s msg) as Q.
+  assert (P : qmsgs (try_enqueue s msg) = qmsgs s \/ Permutation (msg :: qmsgs s) (qmsgs (try_enqueue s msg))).
+  { unfold try_enqueue, qmsgs. destruct (Nat.ltb (length (queue s)) (qcap s)); auto. right. st_simpl.
+    rewrite <- app_assoc. apply Permutation_middle. }
+  split.
+  - eapply Inv_requeue; eauto. destruct P as [-> | P]; [apply (inv_core _ I)|].
+    eapply InvC_perm; [exact P|]. apply InvC_enq_plain; auto. apply (inv_core _ I).
+  - apply Ext_requeue; auto. intros i Hi. destruct P as [P | P]; [rewrite P in Hi; auto|].
+    eapply Permutation_in in Hi; [|apply qids_perm; symmetry; exact P].
+    unfold qids in Hi. cbn [flat_map] in Hi. rewrite E1 in Hi. exact Hi.
+Qed.
+
+(* ---------- unsubscribe() futures ---------- *)
+Lemma fold_drop_rx_same (l : list (handle * handle * bool)) : forall s,
+  let s' := fold_left (fun s' x => match x with (_, c, _) =>
+              match chan_of s' c with Some ch => set_chan s' c (chan_drop_rx ch) | None => s' end end) l s in
+  SameC s s' /\ (NoDup (map fst (chans s)) -> NoDup (map fst (chans s'))) /\ busy s' = busy s /\ dying s' = dying s
+  /\ sendfail s' = sendfail s /\ unsubw s' = unsubw s /\ gone s' = gone s /\ subkind s' = subkind s.
+Proof.
+  induction l as [|[[w c] a] l IH]; intros s; cbn [fold_left].
+  - split; [apply SameC_refl|]. repeat split; auto.
+  - destruct (chan_of s c) as [ch|]; [|apply IH].
+    destruct (IH (set_chan s c (chan_drop_rx ch))) as (A & B & C & D & E & F & G & H). cbv zeta in *.
+    split; [eapply SameC_trans; [apply set_chan_same | exact A]|].
+    split; [intros N; apply B; apply set_chan_keys; auto|].
+    repeat split; auto.
+Qed.
+
+Lemma finish_unsubs_good s : Inv s -> Good s (fst (finish_unsubs s)).
+Proof.
+  intros I. unfold finish_unsubs. cbn [fst].
+  destruct (fold_drop_rx_same (filter (unsub_done s) (unsubw s)) s) as (A & B & C & D & _). cbv zeta in *.
+  set (s1 := fold_left _ _ s) in *.
+  apply Good_same; auto.
+  - destruct A. constructor; st_simpl; auto.
+  - st_simpl. apply B. apply (inv_chans _ I).
+  - st_simpl. rewrite C. destruct A. rewrite sc_gated0. apply (inv_busy _ I).
+Qed.
+
+Lemma poll_next_same s sh : SameC s (fst (poll_next s sh)).
+Proof.
+  unfold poll_next. destruct (chan_of s sh) as [c|]; [|apply SameC_refl].
+  destruct (negb (c_rx c)); [apply SameC_refl|]. destruct (c_buf c); [destruct (c_tx c); apply SameC_refl|].
+  apply set_chan_same.
+Qed.
+
+Lemma poll_next_good s sh : Inv s -> Good s (fst (poll_next s sh)).
+Proof.
+  intros I. apply Good_same; auto; [apply poll_next_same | |];
+    unfold poll_next; destruct (chan_of s sh) as [c|]; try apply I;
+    destruct (negb (c_rx c)); try apply I; destruct (c_buf c); try (destruct (c_tx c); apply I);
+    try (apply set_chan_keys; apply I); st_simpl; apply I.
+Qed.
+
+(* ---------- the send task ---------- *)
+Lemma usedC_mono R R' Q Q' i :
+  (forall j k, In (j, k) R' -> In (j, k) R) -> (forall x, In x (qids Q') -> In x (qids Q)) ->
+  usedC R' Q' i -> usedC R Q i.
+Proof.
+  intros A B [H | [H | (j & k & H & E)]].
+  - left. apply in_map_iff in H as ([j k] & <- & H). apply A in H. eapply in_key; eauto.
+  - right; left; auto.
+  - right; right. exists j, k. auto.
+Qed.
+
+Lemma usedC_sub R R' Q Q' :
+  (forall j k, In (j, k) R' -> usedC R Q j /\ forall u, refs k = Some u -> usedC R Q u) ->
+  (forall x, In x (qids Q') -> usedC R Q x) ->
+  forall i, usedC R' Q' i -> usedC R Q i.
+Proof.
+  intros A B i [H | [H | (j & k & H & E)]].
+  - apply in_map_iff in H as ([j k] & <- & H). apply A in H. tauto.
+  - auto.
+  - apply A in H as (_ & H). auto.
+Qed.
+
+Definition HF (s : st) (msg : f2b) (s' : st) : Prop :=
+  Inv s' /\ dead s' = false /\ id_str s' = id_str s /\ next_id s' = next_id s /\ qmsgs s' = qmsgs s /\
+  (forall i, used s' i -> usedC (requests (m s)) (msg :: qmsgs s) i).
+
+Lemma HF_same s msg s1 s2 : SameC s1 s2 -> NoDup (map fst (chans s2)) -> (busy s2 = true -> gated s2 = true) ->
+  HF s msg s1 -> HF s msg s2.
+Proof.
+  intros C N B (I & D & E1 & E2 & E3 & U). pose proof (SameC_qmsgs _ _ C) as Q. pose proof C as [].
+  split; [eapply Inv_same; eauto|]. repeat split; try congruence.
+  intros i. unfold used. rewrite Q, sc_m0. apply U.
+Qed.
+
+Lemma HF_wire s msg s1 raw : HF s msg s1 -> HF s msg (fst (wire s1 raw)).
+Proof.
+  intros H. pose proof H as (I & _). eapply HF_same; eauto.
+  - apply wire_same.
+  - rewrite wire_chans. apply I.
+  - apply wire_busy. apply I.
+Qed.
+
+Lemma HF_build s msg s' :
+  dead s = false -> dead s' = false -> id_str s' = id_str s -> next_id s' = next_id s ->
+  queue s' = queue s -> waiting s' = waiting s ->
+  NoDup (map fst (chans s')) -> (busy s' = true -> gated s' = true) ->
+  InvC (m s') (qmsgs s) (next_id s) (id_str s) (unacked s') ->
+  (forall i, usedC (requests (m s')) (qmsgs s) i -> usedC (requests (m s)) (msg :: qmsgs s) i) ->
+  HF s msg s'.
+Proof.
+  intros D D' E1 E2 E3 E4 N B C U.
+  assert (Q : qmsgs s' = qmsgs s) by (unfold qmsgs; congruence).
+  split; [|repeat split; auto].
+  - constructor; auto; [|congruence]. rewrite Q, E1, E2. auto.
+  - unfold used. rewrite Q. auto.
+Qed.
+
+Lemma usedC_tail R x Q i : usedC R Q i -> usedC R (x :: Q) i.
+Proof.
+  intros [H | [H | H]]; [left | right; left | right; right]; auto.
+  unfold qids. cbn [flat_map]. apply in_app_iff; auto.
+Qed.
+
+Lemma handle_front_good s msg :
+  dead s = false -> NoDup (map fst (chans s)) -> (busy s = true -> gated s = true) ->
+  InvC (m s) (msg :: qmsgs s) (next_id s) (id_str s) (unacked s) ->
+  HF s msg (fst (handle_front s msg)).
+Proof.
+  intros D N B C.
+  assert (SELF : HF s msg s).
+  { apply HF_build; auto. - eapply InvC_tail; eauto. - intros i. apply usedC_tail. }
+  destruct msg as [lo hi h raw | raw | i w raw | si ui um h raw | me h | me | sid]; cbn [handle_front].
+  - (* MBatch *)
+    apply InvC_front_batch in C as (F & C).
+    apply (ahas_false range_eqb range_eqb_ok) in F. rewrite F.
+    apply HF_wire. apply HF_build; st_simpl; auto; try (intros i; apply usedC_tail).
+  - (* MNotif *) apply HF_wire; auto.
+  - (* MRequest *)
+    apply InvC_front_req in C as (F & C).
+    pose proof F as F'. apply (ahas_false id_eqb id_eqb_ok) in F'. rewrite F'.
+    apply HF_wire. apply HF_build; st_simpl; auto. cbn [requests set_requests].
+    apply usedC_sub.
+    + intros j k [E | Hj].
+      * inv E. split; [|discriminate]. right; left. unfold qids. cbn. auto.
+      * split; [left; eapply in_key; eauto|]. intros u Hu. right; right. eauto.
+    + intros x Hx. right; left. unfold qids. cbn [flat_map]. apply in_app_iff; auto.
+  - (* MSubscribe *)
+    apply InvC_front_sub in C as (F1 & F2 & F3 & C).
+    pose proof F1 as F1'. apply (ahas_false id_eqb id_eqb_ok) in F1'.
+    pose proof F2 as F2'. apply (ahas_false id_eqb id_eqb_ok) in F2'.
+    rewrite F1', F2', (eqb_neq id_eqb id_eqb_ok _ _ F3). cbn [negb andb].
+    apply HF_wire. apply HF_build; st_simpl; auto. cbn [requests set_requests].
+    apply usedC_sub.
+    + intros j k [E | [E | Hj]].
+      * inv E. split; [|discriminate]. right; left. unfold qids. cbn. auto.
+      * inv E. split.
+        -- right; left. unfold qids. cbn. auto.
+        -- intros u Hu. cbn in Hu. inv Hu. right; left. unfold qids. cbn. auto.
+      * split; [left; eapply in_key; eauto|]. intros u Hu. right; right. eauto.
+    + intros x Hx. right; left. unfold qids. cbn [flat_map]. apply in_app_iff; auto.
+  - (* MRegister *)
+    apply InvC_tail in C.
+    destruct (ahas bytes_eqb me (nhandlers (m s))) eqn:A; auto.
+    apply (ahas_false bytes_eqb bytes_eqb_eq) in A.
+    assert (C' : InvC (set_nhandlers (m s) ((me, h) :: nhandlers (m s))) (qmsgs s) (next_id s) (id_str s) (unacked s)).
+    { apply InvC_nh; auto. cbn. constructor; auto. destruct C as (_ & _ & C). auto. }
+    destruct (alive s h); cbn [fst]; apply HF_build; st_simpl; auto;
+      try (repeat apply aset_keys_nodup; auto; exact Neqb_ok);
+      intros i; apply usedC_tail.
+  - (* MUnregister *)
+    apply InvC_tail in C.
+    destruct (alookup bytes_eqb me (nhandlers (m s))) as [ch|] eqn:A; auto. cbn [fst].
+    set (s1 := upd_m s (set_nhandlers (m s) (aremove bytes_eqb me (nhandlers (m s))))).
+    eapply HF_same; [apply drop_sink_same | apply drop_sink_keys; exact N | |].
+    + destruct (drop_sink_flags s1 ch) as (-> & _). destruct (drop_sink_same s1 ch). rewrite sc_gated0. exact B.
+    + apply HF_build; unfold s1; st_simpl; auto; try (intros i; apply usedC_tail).
+      apply InvC_nh; auto. apply keys_aremove_nodup. destruct C as (_ & _ & C). auto.
+  - (* MSubClosed *)
+    apply InvC_tail in C. unfold do_unsubscribe.
+    destruct (alookup subid_eqb sid (subs (m s))) as [rid|] eqn:A; auto.
+    unfold req_lookup. destruct (alookup id_eqb rid (requests (m s))) as [[w|u w um|u ch um|j]|] eqn:A2; auto.
+    apply (alookup_In subid_eqb subid_eqb_ok) in A. apply (alookup_In id_eqb id_eqb_ok) in A2.
+    apply HF_wire.
+    set (m1 := set_subs _ _).
+    destruct (drop_sink_same (upd_m s m1) ch). destruct (drop_sink_flags (upd_m s m1) ch) as (F1 & F2 & F3).
+    apply HF_build; st_simpl; auto; try congruence.
+    + apply (drop_sink_keys (upd_m s m1) ch). exact N.
+    + rewrite F1, sc_gated0. exact B.
+    + rewrite sc_unacked0, sc_m0. st_simpl. apply InvC_unsub with (ch := ch) (um := um); auto.
+    + rewrite sc_m0. st_simpl. unfold m1. cbn [requests set_subs set_requests].
+      intros i Hi. apply usedC_tail. revert i Hi. apply usedC_sub; auto.
+      * intros j k Hj. apply (In_aset id_eqb id_eqb_ok) in Hj as [(-> & ->) | (Hj & _)].
+        -- split.
+           ++ right; right. exists rid, (KSub u ch um). auto.
+           ++ intros x Hx. cbn in Hx. inv Hx. left. eapply in_key; eauto.
+        -- apply (In_aset id_eqb id_eqb_ok) in Hj as [(-> & ->) | (Hj & _)].
+           ++ split; [left; eapply in_key; eauto | discriminate].
+           ++ split; [left; eapply in_key; eauto|]. intros x Hx. right; right. eauto.
+      * intros x Hx. right; left; auto.
+Qed.
+
+Lemma HF_front s0 msg q s' : Inv s0 -> queue s0 = msg :: q -> dead s0 = false ->
+  HF (upd_queue s0 q (waiting s0)) msg s' -> Good s0 s' /\ dead s' = false.
+Proof.
+  intros I Q D (I' & D' & E1 & E2 & E3 & U). st_simpl.
+  assert (QM : qmsgs s0 = msg :: qmsgs (upd_queue s0 q (waiting s0))).
+  { unfold qmsgs. st_simpl. rewrite Q. reflexivity. }
+  split; auto. split; auto. constructor; auto.
+  - lia.
+  - intros i Hi. left. unfold used. rewrite QM. apply U. auto.
+  - intros i Hi. left. rewrite E3 in Hi. rewrite QM. unfold qids. cbn [flat_map]. apply in_app_iff; auto.
+Qed.
+
+Lemma drain_good f : forall s, Inv s -> Good s (fst (drain f s)).
+Proof.
+  induction f as [|f IH]; intros s I; cbn [drain fst]; [apply Good_refl; auto|].
+  pose proof (admit_waiting_good (length (waiting s)) s I) as G0.
+  set (s0 := admit_waiting (length (waiting s)) s) in *.
+  destruct (busy s0 || dead s0 || match dying s0 with Some _ => true | None => false end) eqn:F; [exact G0|].
+  destruct (queue s0) as [|msg q] eqn:Q; [exact G0|].
+  apply orb_false_iff in F as (F & _). apply orb_false_iff in F as (_ & D).
+  eapply Good_trans; [exact G0|]. intros I0.
+  pose proof (handle_front_good (upd_queue s0 q (waiting s0)) msg) as H. st_simpl.
+  assert (H' : HF (upd_queue s0 q (waiting s0)) msg (fst (handle_front (upd_queue s0 q (waiting s0)) msg))).
+  { apply H; auto; try apply I0. pose proof (inv_core _ I0) as C. unfold qmsgs in *. st_simpl. rewrite Q in C. exact C. }
+  apply (HF_front s0 msg q _ I0 Q D) in H' as (G1 & D1).
+  destruct (handle_front (upd_queue s0 q (waiting s0)) msg) as [s1 o1]. cbn [fst] in *.
+  specialize (IH s1). destruct (drain f s1) as [s2 o2]. cbn [fst] in *.
+  eapply Good_trans; [exact G1|]. auto.
+Qed.
+
+(* ---------- the read task ---------- *)
+Definition rres_st (r : rres) : st := match r with ROk s _ => s | RFatal s _ _ => s end.
+Definition rres_out (r : rres) : list out := match r with ROk _ o => o | RFatal _ o _ => o end.
+
+Definition GoodL (s s' : st) : Prop := Good s s' /\ dead s' = false.
+
+Lemma GoodL_refl s : Inv s -> dead s = false -> GoodL s s.
+Proof. intros I D. split; auto. apply Good_refl; auto. Qed.
+
+Lemma GoodL_trans s1 s2 s3 : GoodL s1 s2 -> (Inv s2 -> dead s2 = false -> GoodL s2 s3) -> GoodL s1 s3.
+Proof.
+  intros (G & D) H. destruct (H (proj1 G) D) as (G' & D'). split; auto.
+  eapply Good_trans; eauto.
+Qed.
+
+Lemma GoodL_build s s' :
+  Inv s -> dead s = false -> dead s' = false -> id_str s' = id_str s -> next_id s' = next_id s ->
+  queue s' = queue s -> waiting s' = waiting s ->
+  NoDup (map fst (chans s')) -> (busy s' = true -> gated s' = true) ->
+  InvC (m s') (qmsgs s) (next_id s) (id_str s) (unacked s') ->
+  (forall i, usedC (requests (m s')) (qmsgs s) i -> used s i) ->
+  GoodL s s'.
+Proof.
+  intros I D D' E1 E2 E3 E4 N B C U.
+  assert (Q : qmsgs s' = qmsgs s) by (unfold qmsgs; congruence).
+  split; auto. split.
+  - constructor; auto; [|congruence]. rewrite Q, E1, E2. auto.
+  - constructor; auto; try lia.
+    + intros i Hi. left. apply U. unfold used in Hi. rewrite Q in Hi. exact Hi.
+    + rewrite Q. auto.
+Qed.
+
+Lemma GoodL_same s s' : SameC s s' -> NoDup (map fst (chans s')) -> (busy s' = true -> gated s' = true) ->
+  Inv s -> dead s = false -> GoodL s s'.
+Proof. intros C N B I D. split; [apply Good_same; auto|]. destruct C. congruence. Qed.
+
+Lemma release_sub u M x : In x (requests (release_reserved u M)) -> In x (requests M).
+Proof.
+  unfold release_reserved. destruct (req_lookup u M) as [[[w|]| | |]|]; auto. cbn. destruct x as [j k].
+  intros H. apply (In_aremove id_eqb id_eqb_ok) in H. tauto.
+Qed.
+
+Lemma release_frame u M : subs (release_reserved u M) = subs M /\ batches (release_reserved u M) = batches M /\
+  nhandlers (release_reserved u M) = nhandlers M.
+Proof. unfold release_reserved. destruct (req_lookup u M) as [[[w|]| | |]|]; auto. Qed.
+
+Lemma forward_goodL s sid : Inv s -> dead s = false -> GoodL s (forward s (MSubClosed sid)).
+Proof.
+  intros I D. split.
+  - apply enqueue_plain_good; auto. exact Logic.I.
+  - destruct (enqueue_tagged_sameq s (MSubClosed sid) None). unfold forward, enqueue. congruence.
+Qed.
+
+Lemma set_chan_goodL s h c : Inv s -> dead s = false -> GoodL s (set_chan s h c).
+Proof.
+  intros I D. apply GoodL_same; auto.
+  - apply set_chan_same.
+  - apply set_chan_keys. apply I.
+  - apply I.
+Qed.
+
+Lemma drop_sink_goodL s h : Inv s -> dead s = false -> GoodL s (drop_sink s h).
+Proof.
+  intros I D. apply GoodL_same; auto.
+  - apply drop_sink_same.
+  - apply drop_sink_keys. apply I.
+  - destruct (drop_sink_flags s h) as (-> & _). destruct (drop_sink_same s h). rewrite sc_gated0. apply I.
+Qed.
+
+Lemma single_response_good s r : Inv s -> dead s = false -> GoodL s (rres_st (single_response s r)).
+Proof.
+  intros I D. unfold single_response, req_lookup.
+  pose proof (inv_core _ I) as C. pose proof (inv_chans _ I) as N. pose proof (inv_busy _ I) as B.
+  destruct (alookup id_eqb (rs_id r) (requests (m s))) as [[w|u w um|u ch um|sub]|] eqn:A;
+    try (apply GoodL_refl; auto; fail); apply (alookup_In id_eqb id_eqb_ok) in A.
+  - (* KCall *)
+    cbn [rres_st]. apply GoodL_build; st_simpl; auto.
+    + eapply InvC_resp_call; eauto.
+    + intros i. apply usedC_mono; auto. cbn. intros j k Hj. apply (In_aremove id_eqb id_eqb_ok) in Hj. tauto.
+  - (* KPendSub *)
+    set (m1 := set_requests (m s) (aremove id_eqb (rs_id r) (requests (m s)))).
+    assert (ERR : GoodL s (upd_m s (release_reserved u m1))).
+    { apply GoodL_build; st_simpl; auto.
+      - eapply InvC_resp_pend_err; eauto.
+      - intros i. apply usedC_mono; auto. intros j k Hj. apply release_sub in Hj. cbn in Hj.
+        apply (In_aremove id_eqb id_eqb_ok) in Hj. tauto. }
+    destruct (rs_payload r) as [raw|e]; [|exact ERR].
+    destruct (parse_subid raw) as [sid|]; [|exact ERR].
+    destruct (ahas subid_eqb sid (subs m1)) eqn:AH; [exact ERR|].
+    apply (ahas_false subid_eqb subid_eqb_ok) in AH. cbn [m1 subs set_requests] in AH.
+    set (m2 := set_subs _ _).
+    assert (OK : GoodL s (upd_m s m2)).
+    { change m2 with (set_subs (set_requests (m s) ((rs_id r, KSub u w um) :: aremove id_eqb (rs_id r) (requests (m s))))
+                               ((sid, rs_id r) :: subs (m s))).
+      apply GoodL_build; st_simpl; auto.
+      - eapply InvC_resp_pend_ok; eauto.
+      - cbn [requests subs set_requests set_subs]. apply usedC_sub.
+        + intros j k [E | Hj].
+          * inv E. split; [left; eapply in_key; eauto|]. intros x Hx. cbn in Hx. inv Hx.
+            right; right. exists (rs_id r), (KPendSub x w um). auto.
+          * apply (In_aremove id_eqb id_eqb_ok) in Hj as (Hj & _).
+            split; [left; eapply in_key; eauto|]. intros x Hx. right; right. eauto.
+        + intros x Hx. right; left; auto. }
+    destruct (alive s w); cbn [rres_st].
+    + eapply GoodL_trans; [exact OK|]. intros I1 D1.
+      eapply GoodL_trans; [apply (set_chan_goodL _ w (new_chan (bufcap s))); auto|]. intros I2 D2.
+      apply GoodL_same; auto; try apply I2. constructor; reflexivity.
+    + eapply GoodL_trans; [exact OK|]. intros I1 D1.
+      eapply GoodL_trans; [apply (set_chan_goodL _ w (new_chan (bufcap s))); auto|]. intros I2 D2.
+      eapply GoodL_trans; [apply (set_chan_goodL _ w (chan_drop_rx (new_chan (bufcap s)))); auto|]. intros I3 D3.
+      apply forward_goodL; auto.
+  - (* KUnsubP *)
+    cbn [rres_st]. apply GoodL_build; st_simpl; auto.
+    + exact (InvC_resp_unsubp _ _ _ _ _ _ sub C A).
+    + intros i. apply usedC_mono; auto. cbn [requests set_requests]. intros j k Hj.
+      destruct (alookup id_eqb sub (aremove id_eqb (rs_id r) (requests (m s)))) as [[[w|]| | |]|];
+        repeat (apply (In_aremove id_eqb id_eqb_ok) in Hj as (Hj & _)); auto.
+Qed.
+
+Lemma sub_deliver_good s sid p : Inv s -> dead s = false -> GoodL s (sub_deliver s sid p).
+Proof.
+  intros I D. unfold sub_deliver.
+  destruct (alookup subid_eqb sid (subs (m s))) as [rid|]; [|apply GoodL_refl; auto].
+  destruct (req_lookup rid (m s)) as [[w|u w um|u ch um|sub]|]; try (apply GoodL_refl; auto; fail).
+  destruct (chan_of s ch) as [c|]; [|apply GoodL_refl; auto].
+  destruct (chan_send c p) as [c' res].
+  destruct res; try apply set_chan_goodL; auto;
+    (eapply GoodL_trans; [apply set_chan_goodL; auto|]; intros I1 D1; apply forward_goodL; auto).
+Qed.
+
+Lemma sub_close_good s sid : Inv s -> dead s = false -> GoodL s (sub_close s sid).
+Proof.
+  intros I D. unfold sub_close, req_lookup.
+  pose proof (inv_core _ I) as C. pose proof (inv_chans _ I) as N. pose proof (inv_busy _ I) as B.
+  destruct (alookup subid_eqb sid (subs (m s))) as [rid|] eqn:A1; [|apply GoodL_refl; auto].
+  destruct (alookup id_eqb rid (requests (m s))) as [[w|u w um|u ch um|sub]|] eqn:A2; try (apply GoodL_refl; auto; fail).
+  apply (alookup_In subid_eqb subid_eqb_ok) in A1. apply (alookup_In id_eqb id_eqb_ok) in A2.
+  set (m1 := set_subs _ _).
+  eapply GoodL_trans; [|intros I1 D1; apply drop_sink_goodL; auto].
+  apply GoodL_build; st_simpl; auto.
+  - eapply InvC_close; eauto.
+  - intros i. apply usedC_mono; auto. intros j k Hj. apply release_sub in Hj. cbn in Hj.
+    apply (In_aremove id_eqb id_eqb_ok) in Hj. tauto.
+Qed.
+
+Lemma notif_deliver_good s me p : Inv s -> dead s = false -> GoodL s (notif_deliver s me p).
+Proof.
+  intros I D. unfold notif_deliver.
+  destruct (alookup bytes_eqb me (nhandlers (m s))) as [ch|]; [|apply GoodL_refl; auto].
+  destruct (chan_of s ch) as [c|]; [|apply GoodL_refl; auto].
+  destruct (chan_send c _) as [c' res].
+  assert (X : forall s1, Inv s1 -> dead s1 = false ->
+              GoodL s1 (drop_sink (upd_m s1 (set_nhandlers (m s1) (aremove bytes_eqb me (nhandlers (m s1))))) ch)).
+  { intros s1 I1 D1. eapply GoodL_trans; [|intros I2 D2; apply drop_sink_goodL; auto].
+    apply GoodL_build; st_simpl; auto; try apply I1.
+    apply InvC_nh; [apply I1|]. apply keys_aremove_nodup. destruct (inv_core _ I1) as (_ & _ & H). exact H. }
+  destruct res; try apply set_chan_goodL; auto;
+    (eapply GoodL_trans; [apply set_chan_goodL; auto|]; intros I1 D1; apply X; auto).
+Qed.
+
+Lemma array_loop_good ms : forall s acc rng got, Inv s -> dead s = false ->
+  match array_loop s ms acc rng got with
+  | inl (s', _, _, _) => GoodL s s'
+  | inr (s', _) => GoodL s s'
+  end.
+Proof.
+  induction ms as [|x ms IH]; intros s acc rng got I D; cbn [array_loop]; [apply GoodL_refl; auto|].
+  destruct x as [r|me sid p|me sid p|me p|].
+  - destruct (id_as_number (rs_id r)); [apply IH; auto | apply GoodL_refl; auto].
+  - pose proof (sub_deliver_good s sid p I D) as G. pose proof G as ((I1 & _) & D1).
+    specialize (IH (sub_deliver s sid p) acc rng true I1 D1).
+    destruct (array_loop (sub_deliver s sid p) ms acc rng true) as [[[[s' a] b] c]|[s' f]];
+      (eapply GoodL_trans; [exact G | intros; exact IH]).
+  - pose proof (sub_close_good s sid I D) as G. pose proof G as ((I1 & _) & D1).
+    specialize (IH (sub_close s sid) acc rng true I1 D1).
+    destruct (array_loop (sub_close s sid) ms acc rng true) as [[[[s' a] b] c]|[s' f]];
+      (eapply GoodL_trans; [exact G | intros; exact IH]).
+  - pose proof (notif_deliver_good s me p I D) as G. pose proof G as ((I1 & _) & D1).
+    specialize (IH (notif_deliver s me p) acc rng true I1 D1).
+    destruct (array_loop (notif_deliver s me p) ms acc rng true) as [[[[s' a] b] c]|[s' f]];
+      (eapply GoodL_trans; [exact G | intros; exact IH]).
+  - apply GoodL_refl; auto.
+Qed.
+
+Lemma batch_response_good s rs lo hi : Inv s -> dead s = false -> GoodL s (rres_st (batch_response s rs lo hi)).
+Proof.
+  intros I D. unfold batch_response.
+  destruct (alookup range_eqb (lo, hi) (batches (m s))); [|apply GoodL_refl; auto].
+  cbn [rres_st]. apply GoodL_build; st_simpl; auto; try apply I.
+  apply InvC_batch_rm. apply I.
+Qed.
+
+Lemma handle_back_good s fr : Inv s -> dead s = false -> GoodL s (rres_st (handle_back s fr)).
+Proof.
+  intros I D. destruct fr as [x|ms|]; cbn [handle_back].
+  - destruct x as [r|me sid p|me sid p|me p|]; cbn [handle_elem_single rres_st].
+    + apply single_response_good; auto.
+    + apply sub_deliver_good; auto.
+    + apply sub_close_good; auto.
+    + apply notif_deliver_good; auto.
+    + apply GoodL_refl; auto.
+  - pose proof (array_loop_good ms s [] None false I D) as G.
+    destruct (array_loop s ms [] None false) as [[[[s' rs] [[lo hi]|]] got]|[s' f]]; auto.
+    + destruct (hi =? u64_max); auto.
+      eapply GoodL_trans; [exact G|]. intros I1 D1. apply batch_response_good; auto.
+    + destruct got; auto.
+  - apply GoodL_refl; auto.
+Qed.
+
+(* ---------- shutdown ---------- *)
+Lemma kill_good s f : Inv s -> Good s (fst (kill s f)).
+Proof.
+  intros I. unfold kill. cbn [fst]. split.
+  - constructor; st_simpl.
+    + apply InvC_kill.
+    + rewrite map_map. cbn [fst]. apply I.
+    + auto.
+    + apply I.
+  - constructor; st_simpl; auto; try lia.
+    + intros i [H | [H | (j & k & H & _)]]; cbn in H; contradiction.
+    + cbn. tauto.
+Qed.
+
+Lemma try_kill_good s : Inv s -> Good s (fst (try_kill s)).
+Proof.
+  intros I. unfold try_kill. destruct (dying s); [|apply Good_refl; auto].
+  destruct (busy s || dead s); [apply Good_refl; auto|]. apply kill_good; auto.
+Qed.
+
+(* ---------- front-end events ---------- *)
+Lemma alloc_enq_good s nx' msg tag : Inv s -> dead s = false -> next_id s <= nx' ->
+  InvC (m s) (msg :: qmsgs s) nx' (id_str s) (unacked s) ->
+  (forall i, In i (msg_ids msg) -> idge (id_str s) (next_id s) i) ->
+  Good s (enqueue_tagged (upd_next s nx') msg tag).
+Proof.
+  intros I D L C G. set (s1 := upd_next s nx').
+  pose proof (enqueue_tagged_sameq s1 msg tag) as Q. pose proof (enqueue_tagged_perm s1 msg tag) as P.
+  assert (QM : qmsgs s1 = qmsgs s) by reflexivity. rewrite QM in P.
+  destruct Q; unfold s1 in *; st_simpl. split.
+  - constructor.
+    + rewrite sq_m0, sq_next0, sq_str0, sq_unacked0. eapply InvC_perm; [exact P|]. exact C.
+    + rewrite sq_chans0. apply I.
+    + intros X. congruence.
+    + rewrite sq_busy0, sq_gated0. apply I.
+  - constructor; auto; try lia.
+    + intros i. unfold used, usedC. rewrite sq_m0. intros [H | [H | H]]; auto.
+      eapply Permutation_in in H; [|apply qids_perm; symmetry; exact P].
+      unfold qids in H. cbn [flat_map] in H. apply in_app_iff in H as [H | H]; auto.
+    + intros i H. eapply Permutation_in in H; [|apply qids_perm; symmetry; exact P].
+      unfold qids in H. cbn [flat_map] in H. apply in_app_iff in H as [H | H]; auto.
+Qed.
+
+Lemma map_fst_filter {A B} (p : A -> bool) (l : list (A * B)) :
+  map fst (filter (fun x => p (fst x)) l) = filter p (map fst l).
+Proof. induction l as [|[a b] l IH]; cbn; auto. destruct (p a); cbn; congruence. Qed.
+
+Lemma close_msg_plain s sh msg : close_msg_of s sh = Some msg -> msg_ids msg = [] /\ msg_ranges msg = [] /\ msg_ok msg.
+Proof.
+  unfold close_msg_of. destruct (alookup N.eqb sh (subkind s)) as [[sid|me]|]; intros [= <-]; cbn; auto.
+Qed.
+
+Lemma apply_good s e : Inv s -> Good s (fst (fst (apply s e))).
+Proof.
+  intros I. unfold apply. destruct (dead s) eqn:D.
+  - (* dead *)
+    assert (X : forall sh c, Good s (upd_subkind (set_chan s sh (chan_drop_rx c)) (aremove N.eqb sh (subkind s)))).
+    { intros sh c. apply Good_same; auto; st_simpl; try apply I.
+      - constructor; reflexivity.
+      - apply aset_keys_nodup; [exact Neqb_ok | apply I]. }
+    destruct e; cbn [fst]; try (apply Good_refl; auto; fail).
+    + pose proof (poll_next_good s sh I) as G. destruct (poll_next s sh); exact G.
+    + destruct (close_msg_of s sh); [|apply Good_refl; auto]. destruct (chan_of s sh); [|apply Good_refl; auto]. apply X.
+    + destruct (close_msg_of s sh); [|apply Good_refl; auto]. destruct (chan_of s sh); [|apply Good_refl; auto]. apply X.
+  - pose proof (inv_core _ I) as C.
+    destruct e; cbn [fst].
+    + (* FCall *) unfold enqueue. apply alloc_enq_good; auto; [lia | apply InvC_enq_req; auto |].
+      cbn. intros i [<- | []]. exists (next_id s). split; [lia | reflexivity].
+    + (* FNotify *) unfold enqueue. apply alloc_enq_good; auto; [lia | | cbn; tauto].
+      apply InvC_enq_plain; cbn; auto. eapply InvC_mono; [|exact C]. lia.
+    + (* FBatch *) destruct entries as [|e0 es]; [apply Good_refl; auto|].
+      unfold enqueue. apply alloc_enq_good; auto; [lia | | cbn; tauto].
+      apply InvC_enq_batch; auto. cbn [length]. lia.
+    + (* FSubscribe *) destruct (bytes_eqb sub unsub); [apply Good_refl; auto|]. cbn [fst].
+      unfold enqueue. apply alloc_enq_good; auto; [lia | apply InvC_enq_sub; auto |].
+      cbn. intros i [<- | [<- | []]].
+      * exists (next_id s). split; [lia | reflexivity].
+      * exists (next_id s + 1). split; [lia | reflexivity].
+    + (* FSubMethod *) apply enqueue_plain_good; auto. exact Logic.I.
+    + (* FNext *) pose proof (poll_next_good s sh I) as G. destruct (poll_next s sh); exact G.
+    + (* FUnsub *) destruct (close_msg_of s sh) as [msg|] eqn:CM; [|apply Good_refl; auto]. cbn [fst].
+      destruct (close_msg_plain _ _ _ CM) as (E1 & E2 & K).
+      set (s1 := upd_unsubw _ _).
+      assert (G1 : Good s s1).
+      { apply Good_same; auto; unfold s1; st_simpl; try apply I. constructor; reflexivity. }
+      eapply Good_trans; [exact G1|]. intros I1. apply enqueue_plain_good; auto.
+    + (* FDrop *) destruct (close_msg_of s sh) as [msg|] eqn:CM; [|apply Good_refl; auto].
+      destruct (chan_of s sh) as [c|]; [|apply Good_refl; auto]. cbn [fst].
+      destruct (close_msg_plain _ _ _ CM) as (E1 & E2 & K).
+      set (s1 := set_chan _ _ _).
+      assert (G1 : Good s s1).
+      { apply Good_same; auto; unfold s1; st_simpl; try apply I.
+        - constructor; reflexivity.
+        - apply aset_keys_nodup; [exact Neqb_ok | apply I]. }
+      eapply Good_trans; [exact G1|]. intros I1. apply try_enqueue_plain_good; auto.
+    + (* FGiveUp *)
+      set (p := fun x : f2b => negb (existsb (N.eqb h) (waiters_of_msg x))).
+      set (s' := upd_gone _ _).
+      assert (QM : qmsgs s' = queue s ++ filter p (map fst (waiting s))).
+      { unfold qmsgs, s'. st_simpl. apply f_equal. apply (map_fst_filter p). }
+      assert (E1 : m s' = m s) by reflexivity. assert (E2 : next_id s' = next_id s) by reflexivity.
+      assert (E3 : id_str s' = id_str s) by reflexivity. assert (E4 : unacked s' = unacked s) by reflexivity.
+      assert (E5 : chans s' = chans s) by reflexivity. assert (E6 : dead s' = dead s) by reflexivity.
+      assert (E7 : busy s' = busy s) by reflexivity. assert (E8 : gated s' = gated s) by reflexivity.
+      clearbody s'. split.
+      * constructor; rewrite ?E1, ?E2, ?E3, ?E4, ?E5, ?E6, ?E7, ?E8; try apply I; [|intros X; congruence].
+        rewrite QM. apply InvC_filter. exact C.
+      * constructor; rewrite ?E2, ?E3; auto; try lia.
+        -- intros i. unfold used, usedC. rewrite QM, E1. intros [H | [H | H]]; auto.
+           left; right; left. unfold qmsgs, qids in *. rewrite flat_map_app in *. rewrite in_app_iff in *.
+           destruct H as [H | H]; auto. right. eapply in_flat_map_filter; eauto.
+        -- intros i H. left. rewrite QM in H. unfold qmsgs, qids in *. rewrite flat_map_app in *. rewrite in_app_iff in *.
+           destruct H as [H | H]; auto. right. eapply in_flat_map_filter; eauto.
+    + (* Release *) apply Good_same; auto; st_simpl; try apply I; [constructor; reflexivity | discriminate].
+    + (* Back *) destruct (dying s); [apply Good_refl; auto|].
+      pose proof (handle_back_good s (classify_frame raw) I D) as (G & D').
+      destruct (handle_back s (classify_frame raw)) as [s' o | s' o f]; cbn [rres_st fst] in *; auto.
+      eapply Good_trans; [exact G|]. intros I'. apply Good_same; auto; st_simpl; try apply I'. constructor; reflexivity.
+    + (* Fault *) apply Good_same; auto; st_simpl; try apply I. constructor; reflexivity.
+    + (* FailSend *) apply Good_same; auto; st_simpl; try apply I. constructor; reflexivity.
+Qed.
+
+Lemma settle_good s : Inv s -> Good s (fst (settle s)).
+Proof.
+  intros I. unfold settle.
+  pose proof (try_kill_good s I) as G1. destruct (try_kill s) as [s1 o1]. cbn [fst] in G1.
+  pose proof (drain_good (S (length (queue s1) + length (waiting s1))) s1) as G2.
+  destruct (drain _ s1) as [s2 o2]. cbn [fst] in G2.
+  pose proof (try_kill_good s2) as G3. destruct (try_kill s2) as [s3 o3]. cbn [fst] in G3.
+  pose proof (finish_unsubs_good s3) as G4. destruct (finish_unsubs s3) as [s4 o4]. cbn [fst] in *.
+  eapply Good_trans; [exact G1|]. intros I1. eapply Good_trans; [apply G2; auto|]. intros I2.
+  eapply Good_trans; [apply G3; auto|]. auto.
+Qed.
+
+Theorem step_good s e : Inv s -> Good s (fst (fst (step s e))).
+Proof.
+  intros I. unfold step.
+  pose proof (apply_good s e I) as G1. destruct (apply s e) as [[s1 o1] r]. cbn [fst] in G1.
+  pose proof (settle_good s1) as G2. destruct (settle s1) as [s2 o2]. cbn [fst] in *.
+  eapply Good_trans; [exact G1|]. auto.
+Qed.
+
+Theorem step_inv s e : Inv s -> Inv (fst (fst (step s e))).
+Proof. intros I. apply (step_good s e I). Qed.
+
+Theorem init_inv idstr qc bc gate : Inv (init idstr qc bc gate).
+Proof.
+  constructor; cbn; auto; try discriminate; [apply InvC_init | constructor].
+Qed.
+
+Lemma run_cons s e es : run s (e :: es) =
+  (fst (run (fst (fst (step s e))) es), (snd (fst (step s e)), snd (step s e)) :: snd (run (fst (fst (step s e))) es)).
+Proof.
+  cbn [run]. destruct (step s e) as [[s1 o] r]. cbn [fst snd]. destruct (run s1 es); reflexivity.
+Qed.
+
+Lemma run_app s es1 es2 : fst (run s (es1 ++ es2)) = fst (run (fst (run s es1)) es2).
+Proof.
+  revert s. induction es1 as [|e es1 IH]; intros s; [reflexivity|].
+  rewrite <- app_comm_cons, !run_cons. cbn [fst]. apply IH.
+Qed.
+
+Theorem run_good es : forall s, Inv s -> Good s (fst (run s es)).
+Proof.
+  induction es as [|e es IH]; intros s I; [apply Good_refl; auto|].
+  rewrite run_cons. cbn [fst]. eapply Good_trans; [apply step_good; auto|]. auto.
+Qed.
+
+Theorem run_inv es s : Inv s -> Inv (fst (run s es)).
+Proof. intros I. apply (run_good es s I). Qed.
+
+(* ------------------------------------------------------------------------------------------- *)
+(* Part 4: lifting a state predicate J and an output predicate P through settle / step / run     *)
+(* ------------------------------------------------------------------------------------------- *)
+
+Lemma Forall_flat_map {A B} (P : B -> Prop) (f : A -> list B) l : (forall x, In x l -> Forall P (f x)) -> Forall P (flat_map f l).
+Proof.
+  induction l as [|a l IH]; cbn; intros H; [constructor|]. apply Forall_app. split; [apply H; auto | apply IH; auto].
+Qed.
+
+Lemma complete_Forall (P : out -> Prop) s h r : (alive s h = true -> P (OComplete h r)) -> Forall P (complete s h r).
+Proof. unfold complete. destruct (alive s h); intros H; repeat constructor; auto. Qed.
+
+Lemma admit_waiting_flags f s : busy (admit_waiting f s) = busy s /\ dead (admit_waiting f s) = dead s /\ dying (admit_waiting f s) = dying s.
+Proof. destruct (admit_waiting_sameq f s). auto. Qed.
+
+Section Lift.
+  Variables (J : st -> Prop) (P : out -> Prop).
+  Hypothesis H_admit : forall f s, J s -> J (admit_waiting f s).
+  Hypothesis H_front : forall s0 msg q, J s0 -> queue s0 = msg :: q -> dead s0 = false -> busy s0 = false -> dying s0 = None ->
+    J (fst (handle_front (upd_queue s0 q (waiting s0)) msg)) /\ Forall P (snd (handle_front (upd_queue s0 q (waiting s0)) msg)).
+  Hypothesis H_kill : forall s f, J s -> dying s = Some f -> busy s = false -> dead s = false ->
+    J (fst (kill s f)) /\ Forall P (snd (kill s f)).
+  Hypothesis H_fin : forall s, J s -> J (fst (finish_unsubs s)) /\ Forall P (snd (finish_unsubs s)).
+
+  Lemma drain_lift f : forall s, J s -> J (fst (drain f s)) /\ Forall P (snd (drain f s)).
+  Proof.
+    induction f as [|f IH]; intros s Js; cbn [drain]; [split; auto; constructor|].
+    pose proof (H_admit (length (waiting s)) s Js) as J0.
+    set (s0 := admit_waiting (length (waiting s)) s) in *.
+    destruct (busy s0 || dead s0 || match dying s0 with Some _ => true | None => false end) eqn:F; [split; auto; constructor|].
+    destruct (queue s0) as [|msg q] eqn:Q; [split; auto; constructor|].
+    apply orb_false_iff in F as (F & DY). apply orb_false_iff in F as (B & D).
+    assert (DY' : dying s0 = None) by (destruct (dying s0); [discriminate | auto]).
+    destruct (H_front s0 msg q J0 Q D B DY') as (J1 & P1).
+    destruct (handle_front (upd_queue s0 q (waiting s0)) msg) as [s1 o1]. cbn [fst snd] in *.
+    destruct (IH s1 J1) as (J2 & P2). destruct (drain f s1) as [s2 o2]. cbn [fst snd] in *.
+    split; auto. apply Forall_app; auto.
+  Qed.
+
+  Lemma try_kill_lift s : J s -> J (fst (try_kill s)) /\ Forall P (snd (try_kill s)).
+  Proof.
+    intros Js. unfold try_kill. destruct (dying s) eqn:DY; [|split; auto; constructor].
+    destruct (busy s || dead s) eqn:F; [split; auto; constructor|].
+    apply orb_false_iff in F as (B & D). apply H_kill; auto.
+  Qed.
+
+  Lemma settle_lift s : J s -> J (fst (settle s)) /\ Forall P (snd (settle s)).
+  Proof.
+    intros Js. unfold settle.
+    destruct (try_kill_lift s Js) as (J1 & P1). destruct (try_kill s) as [s1 o1]. cbn [fst snd] in *.
+    destruct (drain_lift (S (length (queue s1) + length (waiting s1))) s1 J1) as (J2 & P2).
+    destruct (drain _ s1) as [s2 o2]. cbn [fst snd] in *.
+    destruct (try_kill_lift s2 J2) as (J3 & P3). destruct (try_kill s2) as [s3 o3]. cbn [fst snd] in *.
+    destruct (H_fin s3 J3) as (J4 & P4). destruct (finish_unsubs s3) as [s4 o4]. cbn [fst snd] in *.
+    split; auto. repeat (apply Forall_app; split; auto).
+  Qed.
+
+  Hypothesis H_apply : forall s e, J s -> J (fst (fst (apply s e))) /\ Forall P (snd (fst (apply s e))).
+
+  Lemma step_lift s e : J s -> J (fst (fst (step s e))) /\ Forall P (snd (fst (step s e))).
+  Proof.
+    intros Js. unfold step. destruct (H_apply s e Js) as (J1 & P1). destruct (apply s e) as [[s1 o1] r]. cbn [fst snd] in *.
+    destruct (settle_lift s1 J1) as (J2 & P2). destruct (settle s1) as [s2 o2]. cbn [fst snd] in *.
+    split; auto. apply Forall_app; auto.
+  Qed.
+
+  Lemma run_lift es : forall s, J s -> J (fst (run s es)) /\ Forall (fun x => Forall P (fst x)) (snd (run s es)).
+  Proof.
+    induction es as [|e es IH]; intros s Js; [split; auto; constructor|].
+    rewrite run_cons. cbn [fst snd]. destruct (step_lift s e Js) as (J1 & P1).
+    destruct (IH _ J1) as (J2 & P2). split; auto.
+  Qed.
+End Lift.
+
+(* Inv through the dequeue form of handle_front, for use as J *)
+Lemma Inv_front s0 msg q : Inv s0 -> queue s0 = msg :: q -> dead s0 = false ->
+  Inv (fst (handle_front (upd_queue s0 q (waiting s0)) msg)) /\
+  InvC (m s0) (msg :: qmsgs (upd_queue s0 q (waiting s0))) (next_id s0) (id_str s0) (unacked s0).
+Proof.
+  intros I Q D.
+  assert (C : InvC (m s0) (msg :: qmsgs (upd_queue s0 q (waiting s0))) (next_id s0) (id_str s0) (unacked s0)).
+  { pose proof (inv_core _ I) as C. unfold qmsgs in *. st_simpl. rewrite Q in C. exact C. }
+  split; auto.
+  pose proof (handle_front_good (upd_queue s0 q (waiting s0)) msg) as H. st_simpl.
+  destruct H as (H & _); auto; apply I.
+Qed.
+
+(* which completions each part of a step can emit *)
+Definition settle_cres (c : cres) : Prop :=
+  match c with
+  | CErr EOccupied | CErr EAlreadyRegistered | CErr EDisconnected | CRegOk | CDone => True
+  | _ => False
+  end.
+Definition settle_out (o : out) : Prop := match o with OComplete _ c => settle_cres c | _ => True end.
+
+Lemma wire_out (P : out -> Prop) s raw : P (OWire raw) -> Forall P (snd (wire s raw)).
+Proof. unfold wire. destruct (sendfail s); cbn; intros; repeat constructor; auto. Qed.
+
+Lemma handle_front_out (P : out -> Prop) s msg :
+  (forall raw, P (OWire raw)) -> (forall h, P (OComplete h (CErr EOccupied))) ->
+  (forall h, P (OComplete h (CErr EAlreadyRegistered))) -> (forall h, P (OComplete h CRegOk)) ->
+  Forall P (snd (handle_front s msg)).
+Proof.
+  intros W O A R. destruct msg as [lo hi h raw | raw | i w raw | si ui um h raw | me h | me | sid]; cbn [handle_front].
+  - destruct (ahas _ _ _); [apply complete_Forall; auto | apply wire_out; auto].
+  - apply wire_out; auto.
+  - destruct (ahas _ _ _); [|apply wire_out; auto]. destruct w; [apply complete_Forall; auto | constructor].
+  - destruct (_ && _); [apply wire_out; auto | apply complete_Forall; auto].
+  - destruct (ahas _ _ _); [apply complete_Forall; auto|]. destruct (alive s h); cbn; repeat constructor; auto.
+  - destruct (alookup _ _ _); constructor.
+  - unfold do_unsubscribe. destruct (alookup _ _ _); [|constructor].
+    destruct (req_lookup _ _) as [[w|u w um|u ch um|j]|]; try constructor. apply wire_out; auto.
+Qed.
+
+Lemma kill_out (P : out -> Prop) s f : P (OFatal f) -> (forall h, P (OComplete h (CErr EDisconnected))) -> Forall P (snd (kill s f)).
+Proof.
+  intros F D. unfold kill. cbn [snd]. constructor; auto. apply Forall_flat_map. intros h _. apply complete_Forall; auto.
+Qed.
+
+Lemma finish_unsubs_out (P : out -> Prop) s : (forall h, P (OComplete h CDone)) -> Forall P (snd (finish_unsubs s)).
+Proof.
+  intros D. unfold finish_unsubs. cbn [snd]. apply Forall_flat_map. intros [[w c] a] _. apply complete_Forall; auto.
+Qed.
+
+Lemma settle_outs s : Forall settle_out (snd (settle s)).
+Proof.
+  apply (settle_lift (fun _ => True) settle_out); auto.
+  - intros. split; auto. apply handle_front_out; cbn; auto.
+  - intros. split; auto. apply kill_out; cbn; auto.
+  - intros. split; auto. apply finish_unsubs_out; cbn; auto.
 Qed.
